@@ -23,6 +23,19 @@ CHECKS = {
         "note": "Gurobi wrapper not modelled (not installed). The premise 'each solve returns a global optimum' is tested, not proved.",
         "technique": "Lean 4 proof (induction over the Run relation; linear arithmetic) + model-vs-CBC structural and trace correspondence",
     },
+    "C02": {
+        "text": "Machine-checked theorems about MajorInst.build (the Lean model of solve_major_model's construction) for every instance and every "
+                "feasible point: per-configuration allele counts equal the structure (CSAT), every observed core variant is carried XOR novel, "
+                "at most one novel non-insertion variant per site, copy selectors ordered, error rows equal observed minus called copies, helpers "
+                "dominate |error|, objective = sum of helpers + novelty penalties (closed form, tight at optima by abssum_exact), novelty flag exact. "
+                "Tie: on every run the model the real code hands to CBC (captured through the MPSolver API at the first solve) is compared with "
+                "MajorInst.build of the same instance, _filter_alleles with filterAlleles, and an independent exhaustive oracle over all allele "
+                "multisets checks score, optimality, gap-completeness and uniqueness of the real return (C05's loop theorems carry the enumeration).",
+        "design_ref": "DESIGN.md section 4 (C02), 3.2",
+        "note": "Optimality/completeness rest on C05 (Run theorems) plus the exhaustive oracle on generated instances; the antichain bridge "
+                "(decision part determined by the allele multiset) is proved only for copy ordering and XOR-determined novelty flags.",
+        "technique": "Lean 4 proof over the constraint builder + captured-model structural correspondence + exhaustive spec oracle",
+    },
 }
 
 NOT_YET = "check not built yet (work in progress; see DESIGN.md section 9 build order)"
